@@ -292,13 +292,44 @@ func c03Shape(code string) (forms [][]*parse.Primary, npipes int, bad string) {
 	return forms, len(tree.Root.Pipelines), ""
 }
 
+// c03OnlyPut reports whether code is one foreground `put` form without
+// redirections, captures or lambdas, so that evaluating it runs no other
+// command and touches no file.
+func c03OnlyPut(code string) bool {
+	tree, err := parse.Parse(parse.Source{Name: "c03", Code: code}, parse.Config{})
+	if err != nil || len(tree.Root.Pipelines) != 1 || tree.Root.Pipelines[0].Background || len(tree.Root.Pipelines[0].Forms) != 1 {
+		return false
+	}
+	f := tree.Root.Pipelines[0].Forms[0]
+	if h, ok := cmpd.StringLiteral(f.Head); !ok || h != "put" {
+		return false
+	}
+	safe := true
+	var walk func(n parse.Node)
+	walk = func(n parse.Node) {
+		switch n := n.(type) {
+		case *parse.Redir:
+			safe = false
+		case *parse.Primary:
+			if n.Type == parse.OutputCapture || n.Type == parse.ExceptionCapture || n.Type == parse.Lambda || n.Type == parse.BadPrimary {
+				safe = false
+			}
+		}
+		for _, ch := range parse.Children(n) {
+			walk(ch)
+		}
+	}
+	walk(f)
+	return safe
+}
+
 func c03IsStringKind(t parse.PrimaryType) bool {
 	return t == parse.Bareword || t == parse.SingleQuoted || t == parse.DoubleQuoted
 }
 
 // c03Expect checks that code has the given words (form by form; "\x00T"
-// marks the position of the target), and returns the target primary.
-func c03Expect(code string, npipes int, want [][]string) (*parse.Primary, string) {
+// marks the positions of the target), and returns the target primaries.
+func c03Expect(code string, npipes int, want [][]string) ([]*parse.Primary, string) {
 	forms, np, bad := c03Shape(code)
 	if bad != "" {
 		return nil, bad
@@ -306,7 +337,7 @@ func c03Expect(code string, npipes int, want [][]string) (*parse.Primary, string
 	if np != npipes || len(forms) != len(want) {
 		return nil, "shape"
 	}
-	var target *parse.Primary
+	var targets []*parse.Primary
 	for i, ws := range want {
 		if len(forms[i]) != len(ws) {
 			return nil, "shape"
@@ -314,7 +345,7 @@ func c03Expect(code string, npipes int, want [][]string) (*parse.Primary, string
 		for j, w := range ws {
 			p := forms[i][j]
 			if w == "\x00T" {
-				target = p
+				targets = append(targets, p)
 				continue
 			}
 			if !c03IsStringKind(p.Type) || p.Value != w {
@@ -322,7 +353,66 @@ func c03Expect(code string, npipes int, want [][]string) (*parse.Primary, string
 			}
 		}
 	}
-	return target, ""
+	return targets, ""
+}
+
+// c03Cx is one syntactic context a quoted text is placed in.
+type c03Cx struct {
+	name, code string
+	np         int
+	want       [][]string
+}
+
+// c03InContexts parses the text in every context. The fast path parses all
+// contexts at once, one per line (the last one ends at end of input); only if
+// that is not as expected each context is parsed on its own (a context that
+// ends at a newline gets a following `put y` line) to name the failing one.
+// judge returns "" or (reason, detail) for a target primary.
+func c03InContexts(cxs []c03Cx, judge func(p *parse.Primary) (string, string), report func(cx, reason, code, detail string)) bool {
+	var codes []string
+	var want [][]string
+	np := 0
+	for _, cx := range cxs {
+		codes = append(codes, cx.code)
+		want = append(want, cx.want...)
+		np += cx.np
+	}
+	all := strings.Join(codes, "\n")
+	if ts, bad := c03Expect(all, np, want); bad == "" {
+		good := true
+		for _, t := range ts {
+			if r, _ := judge(t); r != "" {
+				good = false
+			}
+		}
+		if good {
+			return true
+		}
+	}
+	found := false
+	for i, cx := range cxs {
+		code, np, want := cx.code, cx.np, cx.want
+		if i < len(cxs)-1 {
+			code, np, want = code+"\nput y", np+1, append(append([][]string{}, want...), []string{"put", "y"})
+		}
+		ts, bad := c03Expect(code, np, want)
+		if bad != "" {
+			found = true
+			report(cx.name, bad, code, "does not parse to the expected words")
+			continue
+		}
+		for _, t := range ts {
+			if r, d := judge(t); r != "" {
+				found = true
+				report(cx.name, r, code, d)
+				break
+			}
+		}
+	}
+	if !found {
+		report("combined", "shape", all, "each context parses as expected on its own but not one per line")
+	}
+	return false
 }
 
 var c03KindName = map[parse.PrimaryType]string{parse.Bareword: "bareword", parse.SingleQuoted: "single", parse.DoubleQuoted: "double"}
@@ -404,38 +494,27 @@ func (k *c03Checker) check(l *vk.Local, s string, doEval bool) string {
 			viol("doc:general:value:"+kn, "quoted text %q denotes %q according to the reference", g.q, val)
 		}
 		// real parser, three argument contexts and the map key
-		ok := true
-		for _, cx := range []struct {
-			name, code string
-			want       [][]string
-		}{
-			{"arg", "put " + g.q, [][]string{{"put", "\x00T"}}},
-			{"arg-mid", "put x " + g.q + " y", [][]string{{"put", "x", "\x00T", "y"}}},
-			{"arg-nl", "put " + g.q + "\nput y", [][]string{{"put", "\x00T"}, {"put", "y"}}},
-		} {
-			np := 1
-			if cx.name == "arg-nl" {
-				np = 2
+		ok := c03InContexts([]c03Cx{
+			{"arg-mid", "put x " + g.q + " y", 1, [][]string{{"put", "x", "\x00T", "y"}}},
+			{"arg-nl", "put " + g.q, 1, [][]string{{"put", "\x00T"}}},
+			{"arg", "put " + g.q, 1, [][]string{{"put", "\x00T"}}},
+		}, func(p *parse.Primary) (string, string) {
+			if p.Type != g.kind {
+				return "type", fmt.Sprintf("the word is a %v primary, QuoteAs reported %v", p.Type, g.kind)
 			}
-			p, bad := c03Expect(cx.code, np, cx.want)
-			switch {
-			case bad != "":
-				ok = false
-				viol("parse:"+cx.name+":"+bad+":"+kn, "code %q does not parse to the expected words (%s)", cx.code, bad)
-			case p.Type != g.kind:
-				ok = false
-				viol("parse:"+cx.name+":type:"+kn, "code %q: the word is a %v primary, QuoteAs reported %v", cx.code, p.Type, g.kind)
-			case p.Value != s:
-				ok = false
-				viol("parse:"+cx.name+":value:"+kn, "code %q: the word has value %q", cx.code, p.Value)
+			if p.Value != s {
+				return "value", fmt.Sprintf("the word has value %q", p.Value)
 			}
-		}
+			return "", ""
+		}, func(cx, reason, code, detail string) {
+			viol("parse:"+cx+":"+reason+":"+kn, "code %q: %s", code, detail)
+		})
 		mapCode := "put [&" + g.q + "=v]"
 		mapOK := true
-		if p, bad := c03Expect(mapCode, 1, [][]string{{"put", "\x00T"}}); bad != "" {
+		if ps, bad := c03Expect(mapCode, 1, [][]string{{"put", "\x00T"}}); bad != "" {
 			mapOK = false
 			viol("parse:mapkey:"+bad+":"+kn, "code %q does not parse to put + one word (%s)", mapCode, bad)
-		} else if p.Type != parse.Map || len(p.MapPairs) != 1 || len(p.Elements) != 0 {
+		} else if p := ps[0]; p.Type != parse.Map || len(p.MapPairs) != 1 || len(p.Elements) != 0 {
 			mapOK = false
 			viol("parse:mapkey:not-one-pair:"+kn, "code %q: the word is a %v with %d pairs and %d elements", mapCode, p.Type, len(p.MapPairs), len(p.Elements))
 		} else {
@@ -460,9 +539,9 @@ func (k *c03Checker) check(l *vk.Local, s string, doEval bool) string {
 		if !doEval {
 			continue
 		}
-		// real evaluation; only when the parse has the expected shape, so that
-		// nothing but put can run.
-		if ok {
+		// real evaluation; when the parse does not have the expected shape,
+		// only if nothing but one put without redirections can run.
+		if ok || c03OnlyPut("put "+g.q) {
 			code := "put " + g.q
 			out, err := e.run(code, nil)
 			if err != nil {
@@ -473,7 +552,7 @@ func (k *c03Checker) check(l *vk.Local, s string, doEval bool) string {
 				viol("eval:arg:value:"+kn, "evaluating %q outputs %#v", code, out[0])
 			}
 		}
-		if mapOK {
+		if mapOK || c03OnlyPut(mapCode) {
 			out, err := e.run(mapCode, nil)
 			if err != nil {
 				viol("eval:mapkey:error:"+kn, "evaluating %q fails: %v", mapCode, err)
@@ -505,31 +584,23 @@ func (k *c03Checker) check(l *vk.Local, s string, doEval bool) string {
 		if silent {
 			l.Classes["not-judged:doc-silent-caret-in-head"]++
 		}
-		ok := true
-		for _, cx := range []struct {
-			name, code string
-			np         int
-			want       [][]string
-		}{
-			{"cmd-alone", qc, 1, [][]string{{"\x00T"}}},
+		ok := c03InContexts([]c03Cx{
+			{"cmd-nl", qc, 1, [][]string{{"\x00T"}}},
 			{"cmd-arg", qc + " x", 1, [][]string{{"\x00T", "x"}}},
-			{"cmd-nl", qc + "\nput y", 2, [][]string{{"\x00T"}, {"put", "y"}}},
 			{"cmd-pipe", "put x | " + qc + " y", 1, [][]string{{"put", "x"}, {"\x00T", "y"}}},
-			{"cmd-semi", "put x;" + qc, 2, [][]string{{"put", "x"}, {"\x00T"}}},
-		} {
-			p, bad := c03Expect(cx.code, cx.np, cx.want)
-			switch {
-			case bad != "":
-				ok = false
-				viol("parse:"+cx.name+":"+bad+":"+kn, "code %q does not parse to the expected words (%s)", cx.code, bad)
-			case !c03IsStringKind(p.Type) || p.Type != dk:
-				ok = false
-				viol("parse:"+cx.name+":type:"+kn, "code %q: the head is a %v primary", cx.code, p.Type)
-			case p.Value != s:
-				ok = false
-				viol("parse:"+cx.name+":value:"+kn, "code %q: the head has value %q", cx.code, p.Value)
+			{"cmd-semi", "put x;" + qc + " y", 2, [][]string{{"put", "x"}, {"\x00T", "y"}}},
+			{"cmd-alone", qc, 1, [][]string{{"\x00T"}}},
+		}, func(p *parse.Primary) (string, string) {
+			if !c03IsStringKind(p.Type) || p.Type != dk {
+				return "type", fmt.Sprintf("the head is a %v primary", p.Type)
 			}
-		}
+			if p.Value != s {
+				return "value", fmt.Sprintf("the head has value %q", p.Value)
+			}
+			return "", ""
+		}, func(cx, reason, code, detail string) {
+			viol("parse:"+cx+":"+reason+":"+kn, "code %q: %s", code, detail)
+		})
 		if doEval && ok {
 			// the command named s is a function variable s~ of the global
 			// namespace. Names with ':' are qualified names, a leading '@' is
@@ -561,29 +632,21 @@ func (k *c03Checker) check(l *vk.Local, s string, doEval bool) string {
 		case val != s:
 			viol("doc:variable:value:"+kn, "variable-name text %q denotes %q according to the reference", qv, val)
 		}
-		ok := true
-		for _, cx := range []struct {
-			name, code string
-			np         int
-			want       [][]string
-		}{
-			{"var", "put $" + qv, 1, [][]string{{"put", "\x00T"}}},
+		ok := c03InContexts([]c03Cx{
 			{"var-mid", "put x $" + qv + " y", 1, [][]string{{"put", "x", "\x00T", "y"}}},
-			{"var-nl", "put $" + qv + "\nput y", 2, [][]string{{"put", "\x00T"}, {"put", "y"}}},
-		} {
-			p, bad := c03Expect(cx.code, cx.np, cx.want)
-			switch {
-			case bad != "":
-				ok = false
-				viol("parse:"+cx.name+":"+bad+":"+kn, "code %q does not parse to the expected words (%s)", cx.code, bad)
-			case p.Type != parse.Variable:
-				ok = false
-				viol("parse:"+cx.name+":type:"+kn, "code %q: the word is a %v primary, not a variable use", cx.code, p.Type)
-			case p.Value != s:
-				ok = false
-				viol("parse:"+cx.name+":value:"+kn, "code %q: the variable use has name %q", cx.code, p.Value)
+			{"var-nl", "put $" + qv, 1, [][]string{{"put", "\x00T"}}},
+			{"var", "put $" + qv, 1, [][]string{{"put", "\x00T"}}},
+		}, func(p *parse.Primary) (string, string) {
+			if p.Type != parse.Variable {
+				return "type", fmt.Sprintf("the word is a %v primary, not a variable use", p.Type)
 			}
-		}
+			if p.Value != s {
+				return "value", fmt.Sprintf("the variable use has name %q", p.Value)
+			}
+			return "", ""
+		}, func(cx, reason, code, detail string) {
+			viol("parse:"+cx+":"+reason+":"+kn, "code %q: %s", code, detail)
+		})
 		if doEval && ok {
 			// '@' in front is the explosion sigil and a non-final ':' makes a
 			// qualified name: the name is then not looked up as it stands.
@@ -634,6 +697,8 @@ func (k *c03Checker) check(l *vk.Local, s string, doEval bool) string {
 var c03Specials = map[string]bool{"var": true, "set": true, "tmp": true, "with": true, "del": true, "and": true, "or": true,
 	"coalesce": true, "if": true, "while": true, "for": true, "try": true, "fn": true, "pragma": true, "use": true}
 
+var c03Ballast []byte
+
 func TestVerifC03(t *testing.T) {
 	vk.Run(t, "C03", "exploration", func(c *vk.Ctx) {
 		if d := os.Getenv("VERIF_SCRATCH"); d != "" {
@@ -641,6 +706,10 @@ func TestVerifC03(t *testing.T) {
 			os.MkdirAll(wd, 0o755)
 			os.Chdir(wd)
 		}
+		// The live heap is tiny and the parser allocates a lot: without a
+		// ballast the collector runs thousands of times per second.
+		c03Ballast = make([]byte, 256<<20)
+		defer func() { c03Ballast = nil }()
 		os.Setenv("PATH", "/nonexistent-c03")
 		os.Setenv("HOME", "/nonexistent-c03-home")
 		const n = 4
@@ -688,6 +757,10 @@ func TestVerifC03(t *testing.T) {
 		}
 		// (2)
 		c.Parallel(256*256, func(l *vk.Local, i int) {
+			if c.TimeUp() {
+				c.Capped("time budget reached in the byte-pair sweep")
+				return
+			}
 			one(l, string([]byte{byte(i >> 8), byte(i)}), true)
 			if i < 256 {
 				one(l, string([]byte{byte(i)}), true)
@@ -697,6 +770,10 @@ func TestVerifC03(t *testing.T) {
 		// (3)
 		c.Parallel(unicode.MaxRune+1, func(l *vk.Local, i int) {
 			if i >= 0xd800 && i <= 0xdfff {
+				return
+			}
+			if i%256 == 0 && c.TimeUp() || c.IsCapped() {
+				c.Capped("time budget reached in the rune sweep")
 				return
 			}
 			r := string(rune(i))
